@@ -73,14 +73,43 @@ fn grid_slices() -> Vec<(u32, usize, i64)> {
 
 fn float_ops<Rm: ModeTag, const B: Word>(m: &mut Mon, r: &mut Rng) {
     let base = B as u32;
-    let p = match r.below(6) {
+    let p = match r.below(7) {
         0 => 1,
         1 => 2,
+        2 => 30 + r.usize(60),
         _ => 1 + r.usize(30),
     };
     let d = 1 + r.usize(p);
     let bb = BigUint::from(base);
-    let smag = match r.below(6) {
+    // forced exponent for the structured significands below
+    let mut forced_e: Option<i64> = None;
+    let smag = match r.below(9) {
+        6 | 7 if d >= 2 => {
+            // k + tiny: an integer part of one digit followed by zeros and a tiny tail (estimates of the digit
+            // count / log2 cannot tell such a value from the integer below it)
+            forced_e = Some(-(d as i64 - 1));
+            let cand = Pow::pow(&bb, d - 1) * BigUint::from(1 + r.below(base as u64 - 1)) + BigUint::from(1 + r.below(3));
+            if cand >= Pow::pow(&bb, d) {
+                Pow::pow(&bb, d - 1) + 1u32
+            } else {
+                cand
+            }
+        }
+        8 if d >= 3 => {
+            // integer part, then a fraction of k digits sitting on / next to one half: floor(B^k / 2) + {-1, 0, 1}
+            // (the closest value below one half in odd bases, the exact tie in even bases)
+            let k = 1 + r.usize(d - 1);
+            forced_e = Some(-(k as i64));
+            let bk = Pow::pow(&bb, k);
+            let half = &bk / 2u32;
+            let tail = match r.below(3) {
+                0 if half.bits() > 1 => &half - 1u32,
+                1 => &half + 1u32,
+                _ => half,
+            };
+            let ip = nat(&[r.u64()]) % Pow::pow(&bb, d - k);
+            ip * bk + tail
+        }
         0 => Pow::pow(&bb, d) - 1u32,
         1 => Pow::pow(&bb, d - 1),
         2 => {
@@ -96,6 +125,7 @@ fn float_ops<Rm: ModeTag, const B: Word>(m: &mut Mon, r: &mut Rng) {
     let neg = r.bool();
     // exponent classes: integer, point inside the digits, |x| < 1, |x| < 1/B, far below
     let e: i64 = match r.below(8) {
+        _ if forced_e.is_some() => forced_e.unwrap(),
         0 => r.range(0, 5),
         1 | 2 => -(r.range(1, d as i64)),
         3 => -(d as i64),
@@ -170,6 +200,17 @@ fn float_ops<Rm: ModeTag, const B: Word>(m: &mut Mon, r: &mut Rng) {
         // and, for a p-digit result, it is the uniquely determined neighbour
         let (u, ue) = qref::round_ref(&x, base, k, Rm::M);
         ensure!(q_of_repr(wv.repr()) == q_of_parts(&u, ue, base), "value", "with_precision({}) = {}*{}^{} but the correctly rounded value is {}*{}^{}", k, wv.repr().significand(), base, wv.repr().exponent(), u, base, ue);
+        // the same from an unlimited-precision (0) copy of the value, and going to unlimited precision is exact
+        let unl = match f.clone().with_precision(0) {
+            Approximation::Exact(v) => v,
+            Approximation::Inexact(v, _) => return fail("flag", format!("with_precision(0) reported Inexact ({}*{}^{})", v.repr().significand(), base, v.repr().exponent())),
+        };
+        ensure!(unl.precision() == 0 && q_of_repr(unl.repr()) == x, "value", "with_precision(0) changed the value or has precision {}", unl.precision());
+        let wp = catch(|| unl.clone().with_precision(k)).or_else(|p| fail("unexpected_panic", format!("with_precision from unlimited: {}", p)))?;
+        let wflag2 = Flag::of(&wp);
+        let wv2 = wp.value();
+        ensure!(wv2.precision() == k, "precision", "with_precision({}) of an unlimited-precision value has precision {}", k, wv2.precision());
+        ensure!(q_of_repr(wv2.repr()) == q_of_parts(&u, ue, base) && wflag2 == wflag, "value", "with_precision({}) of an unlimited-precision value = {}*{}^{} ({:?}) but from precision {} it is {}*{}^{} ({:?})", k, wv2.repr().significand(), base, wv2.repr().exponent(), wflag2, p, u, base, ue, wflag);
         Ok(())
     });
     let _ = (Repr::<B>::zero(), IBig::ZERO);
